@@ -5,7 +5,9 @@
 (* shows a named deviation (counterexample of the property it breaks).                                                *)
 EXTENDS Tail
 
-CONSTANTS ReqKinds, MaxTicks
+CONSTANTS ReqKinds, MaxTicks,
+          LeaveAfter,   \* the client does not leave before that many ticks (99: it stays)
+          StoresPerTick \* at most that many lines become visible per second (spreads the stores over the run)
 
 VARIABLES sched, nt
 
@@ -18,10 +20,11 @@ Quiet  == UNCHANGED <<sched, nt>>
 SInit == Init /\ sched = <<>> /\ nt = 0
 
 SNext ==
-    \/ \E l \in Lines, t \in 0..(MaxT - 1) : StoreLine(l, t) /\ Log(E("store", l, t, ""))
+    \/ /\ Cardinality(store) < StoresPerTick * (nt + 1)
+       /\ \E l \in Lines, t \in 0..(MaxT - 1) : StoreLine(l, t) /\ Log(E("store", l, t, ""))
     \/ nt < MaxTicks /\ Tick /\ sched' = Append(sched, E("tick", 0, 0, "")) /\ nt' = nt + 1
-    \/ ClientClose /\ Log(E("close", 0, 0, ""))
-    \/ ClientDrop /\ Log(E("drop", 0, 0, ""))
+    \/ nt >= LeaveAfter /\ ClientClose /\ Log(E("close", 0, 0, ""))
+    \/ nt >= LeaveAfter /\ ClientDrop /\ Log(E("drop", 0, 0, ""))
     \/ ClientRead /\ Quiet
     \/ \E k \in ReqKinds : Request(k, now - 1) /\ Log(E("req", 0, 0, k))
     \/ (HCtx \/ HPing \/ HRecv \/ HRecvClosed \/ RClose \/ RDrop \/ DRecv \/ DEnd \/ STick \/ SDone \/ SExit) /\ Quiet
